@@ -87,4 +87,27 @@ def gen(rng, tier, quarantine=()):
 
 
 def run(scenario):
-    return Engine(scenario, judge=JUDGE).run()
+    res = Engine(scenario, judge=JUDGE).run()
+    # the stock predicates this scenario used, against the arithmetic reference,
+    # over the whole box (and a margin): a small exhaustive side check
+    import ptera.tools as tools
+    from .. import msel
+
+    seen = set()
+    for op in scenario["ops"]:
+        if op.get("op") != "mk":
+            continue
+        for sel in op["sels"]:
+            for cap in msel.all_caps(sel):
+                c = cap.get("cond")
+                if not c or c[0] == "eq" or repr(c) in seen:
+                    continue
+                seen.add(repr(c))
+                pos = [x for k, x in c[1:] if not k]
+                kw = {k: x for k, x in c[1:] if k}
+                pred = getattr(tools, c[0])(*pos, **kw)
+                for v in range(BOX[0] - 6, BOX[1] + 7):
+                    if bool(pred(v)) != msel.pred_holds(c, v):
+                        res["viol"].append(["C12.predicates", -1, {"cond": c, "value": v, "ptera": bool(pred(v))}])
+                        break
+    return res
